@@ -20,6 +20,10 @@ _CTX = mp.get_context('fork')
 
 def _worker_main(conn, fn, init):
   signal.signal(signal.SIGINT, signal.SIG_IGN)
+  covdir = os.environ.get('VERIF_COV')
+  if covdir:
+    from vf import cov, env
+    cov.start(os.path.join(env.REPO, 'ai_edge_quantizer'))
   try:
     if init is not None:
       init()
@@ -36,6 +40,8 @@ def _worker_main(conn, fn, init):
           res = {'harness_error': ''.join(
               traceback.format_exception(type(e), e, e.__traceback__))[-3000:]}
         conn.send(('res', idx, res))
+      if covdir:
+        cov.dump(covdir)
       conn.send(('idle',))
   except (EOFError, KeyboardInterrupt, BrokenPipeError):
     pass
